@@ -3572,7 +3572,11 @@ impl Compiler {
             Node::Id(id, ..) => {
                 // Compile a call with the piped arg, using the id to access the function
                 if let Some(function_register) = self.frame().get_local_assigned_register(*id) {
-                    self.compile_call(function_register, &[], pipe_register, None, ctx)
+                    // The result register has already been assigned above, so the call needs to
+                    // be compiled with that register rather than assigning another one.
+                    let call_context = ctx.with_register(call_result_register);
+                    self.compile_call(function_register, &[], pipe_register, None, call_context)?;
+                    Ok(result)
                 } else {
                     let call_result_register = if let Some(result_register) = result.register {
                         ResultRegister::Fixed(result_register)
@@ -3594,7 +3598,8 @@ impl Compiler {
                 // Compile the chain, passing in the piped call arg, which will either be appended
                 // to call args at the end of a chain, or the last node will be turned into a call.
                 let call_context = ctx.with_register(call_result_register);
-                self.compile_chain(chain_node, pipe_register, None, None, call_context)
+                self.compile_chain(chain_node, pipe_register, None, None, call_context)?;
+                Ok(result)
             }
             _ => {
                 // If the RHS is none of the above, then compile it assuming that the result will
@@ -3602,8 +3607,7 @@ impl Compiler {
                 let function = self.compile_node(rhs, ctx.with_any_register())?;
                 let function_register = function.unwrap(self)?;
                 let call_context = ctx.with_register(call_result_register);
-                let result =
-                    self.compile_call(function_register, &[], pipe_register, None, call_context)?;
+                self.compile_call(function_register, &[], pipe_register, None, call_context)?;
                 if function.is_temporary {
                     self.pop_register()?;
                 }
